@@ -92,9 +92,46 @@ def run(tier, seed, replay=None):
     cv = ck.validate(DIR, "DlxTrace", [c for c, _ in ctl], "negative controls")
     for (c, exp), v in zip(ctl, cv):
         ck.control(f"corrupted trace rejected as {exp}", (not v["ok"]) and v["why"] == exp, str(v))
+    # ---- step level: every _build_links / _cover / _uncover of a call, the real link structure walked after each one, replayed
+    # against the matrix-level state DlxLinks proves it refines (diagnostic divergences)
+    sc = drv.gen_steps(rng, 500 if tier == "quick" else 6000)
+    st = [r for r in run_tasks("dlx", "run_dlx_steps", sc, timeout=30) if isinstance(r, dict) and "steps" in r]
+    if len(st) < len(sc) // 2:
+        raise tlc.MachineryError("dancing-links step traces could not be recorded (%d of %d)" % (len(st), len(sc)))
+    bulk = [{"seed": rng.randint(0, 10 ** 9), "count": 1500 if tier == "quick" else 20000, "cap": 40 if tier == "quick" else 300} for _ in range(14)]
+    bcov = {}
+    for r in run_tasks("dlx", "run_dlx_steps_bulk", bulk, timeout=1500):
+        if not isinstance(r, dict) or "kept" not in r:
+            raise tlc.MachineryError("dancing-links bulk worker failed: " + str(r)[:300])
+        st += r["kept"]
+        for k, v in r["cov"].items():
+            bcov[k] = bcov.get(k, 0) + v
+    ck.extra["link_level_coverage_directed_generation"] = bcov
+    sv = ck.validate(DIR, "DlxSteps", st, "cover / uncover histories (wrapped module functions, structure walked)", timeout=3000)
+    for v in sv:
+        for d in v.get("div", []):
+            ck.divergences["links:" + d] = ck.divergences.get("links:" + d, 0) + 1
+    ck.extra["link_level"] = {"calls": len(st), "operations_replayed": sum(v.get("ops", 0) for v in sv),
+                              "calls_with_divergence": sum(1 for v in sv if v.get("div"))}
+    ctl2 = []
+    for t, v in zip(st, sv):
+        ks = [i for i, x in enumerate(t["steps"]) if x["op"] == "uncover" and any(len(d) >= 2 for d in x["down"])]
+        if v.get("div") or not ks:
+            continue
+        k = ks[0]
+        j = next(i for i, d in enumerate(t["steps"][k]["down"]) if len(d) >= 2)
+        c = copy.deepcopy(t); c["steps"][k]["down"][j] = c["steps"][k]["down"][j][1:]; ctl2.append((c, "Uncover.column_ring"))
+        c = copy.deepcopy(t); c["steps"][k]["sizes"][j] += 1; ctl2.append((c, "Size."))
+        c = copy.deepcopy(t); c["steps"][k]["up"][j] = list(c["steps"][k]["down"][j]); ctl2.append((c, "Rings.up_walk"))
+        c = copy.deepcopy(t); del c["steps"][k]; ctl2.append((c, "Uncover.not_the_most_recent_cover|Finish.|Cover."))
+        break
+    if not ctl2:
+        raise tlc.MachineryError("no step trace suitable for link-level negative controls")
+    for (c, exp), v in zip(ctl2, ck.validate(DIR, "DlxSteps", [c for c, _ in ctl2], "link-level negative controls")):
+        ck.control(f"corrupted link-level record flagged ({exp})", any(d.startswith(tuple(exp.split("|"))) for d in v.get("div", [])), str(v)[:300])
     ck.rule = ("all 0/1 matrices 2x2, 3x2, 2x3 (and 3x3 in thorough) x every primary/secondary split exported by TLC; random "
                "matrices up to 8x7 with duplicate/empty rows, planted covers, mixed hashable column names; each under 7 call "
                "configurations; non-trivial = matrix with at least one 1; distinct by hash of the input")
     ck.exhaustive = True
-    ck.assumptions = ["matrices have >= 1 row and >= 1 column (0xN / Nx0 inputs are not expressible unambiguously)"]
+    ck.assumptions = ["column names are hashable and pairwise distinct"]
     return ck.finish()
